@@ -2806,6 +2806,13 @@ func (db *DB) snapshotPosition(ctx context.Context) (*snapshotReadPosition, erro
 		db.Logger.Debug("page size not initialized yet", "pageSize", 0)
 		return nil, &DBNotReadyError{Reason: "page size not initialized"}
 	}
+	// A DB that was closed and opened again keeps its page size but has no
+	// file handle until the next sync initializes it. The snapshot reads
+	// db.f after the executor is released, so it must not start while an
+	// initialization could still assign the handle.
+	if db.f == nil {
+		return nil, &DBNotReadyError{Reason: "database not initialized"}
+	}
 	if err != nil {
 		return nil, fmt.Errorf("pos: %w", err)
 	}
